@@ -17,6 +17,7 @@ import json
 import os
 import sys
 import threading
+import time
 
 VERIF = os.path.dirname(os.path.dirname(os.path.abspath(__file__)))
 REPO = os.environ.get("RXVC_REPO", "/repo")
@@ -34,6 +35,11 @@ class Loop(asyncio.SelectorEventLoop):
 
     def time(self):
         return self.vt
+
+    def call_soon_threadsafe(self, callback, *args, context=None):
+        h = super().call_soon_threadsafe(callback, *args, context=context)
+        self.__dict__["posts"] = self.__dict__.get("posts", 0) + 1  # (scenarios that need to know that another thread has posted its callback)
+        return h
 
     def call_later(self, delay, callback, *args, context=None):
         if self.hold_call_later is not None and threading.current_thread().name == "loop":
@@ -212,7 +218,68 @@ def scen_loop_not_running(c):
     return None
 
 
+def scen_two_disposers(c):
+    """two threads dispose two DIFFERENT actions of one thread-safe scheduler at the same time.  Each dispose() waits for ITS OWN marshalled
+    cancellation: once dispose() of an action has returned, that action never starts.  The loop is parked while the ready queue is built as
+    interval(A), cancel(A), gate, interval(B), cancel(B); the gate gives dispose(B) half a second to return too early."""
+    from reactivex.scheduler.eventloop import AsyncIOThreadSafeScheduler
+    loop, _t = start_loop()
+    s = AsyncIOThreadSafeScheduler(loop)
+    started, returned = {}, {"A": threading.Event(), "B": threading.Event()}
+    gate_in, gate_out = threading.Event(), threading.Event()
+
+    def wait_posts(n):
+        t0 = time.time()
+        while loop.__dict__.get("posts", 0) < n:
+            if time.time() - t0 > T:
+                return False
+            time.sleep(0.001)
+        return True
+
+    def gate1():
+        gate_in.set()
+        gate_out.wait(T)
+    loop.call_soon_threadsafe(gate1)
+    if not gate_in.wait(T):
+        return "harness: the loop never reached the first gate"
+    base = loop.__dict__.get("posts", 0)
+
+    def act(name):
+        def f(sc, st=None):
+            started[name] = returned[name].is_set()
+        return f
+
+    def disposer(name, d):
+        def f():
+            d.dispose()
+            returned[name].set()
+        return f
+    dA = s.schedule(act("A"))
+    ta = in_thread(disposer("A", dA))
+    if not wait_posts(base + 2):
+        return "harness: dispose(A) never posted its cancellation"
+    loop.call_soon_threadsafe(lambda: returned["B"].wait(0.5))
+    dB = s.schedule(act("B"))
+    tb = in_thread(disposer("B", dB))
+    if not wait_posts(base + 5):
+        return "harness: dispose(B) never posted its cancellation"
+    gate_out.set()
+    for (_th, done, box) in (ta, tb):
+        if not done.wait(T):
+            return "a dispose() never returned"
+        if "e" in box:
+            return f"dispose() raised {box['e']}"
+    pump(loop)
+    loop.call_soon_threadsafe(loop.stop)
+    late = [n for n, after in started.items() if after]
+    if late:
+        return (f"two threads disposing two different actions at once: dispose() of action {late[0]} had already returned when that action started "
+                f"(it was released by the cancellation of the OTHER action)")
+    return None
+
+
 SCENARIOS = [
+    ("two_disposers", {}),
     ("race_with_first_stage", {"disposer": "plain-thread"}),
     ("race_with_first_stage", {"disposer": "thread-with-own-loop"}),
     ("dispose_before_first_stage", {"disposer": "plain-thread", "kind": "relative"}),
@@ -222,7 +289,7 @@ SCENARIOS = [
     ("on_loop_thread", {"threadsafe": True}),
     ("loop_not_running", {}),
 ]
-FUN = {"race_with_first_stage": scen_race_with_first_stage, "dispose_before_first_stage": scen_dispose_before_first_stage,
+FUN = {"two_disposers": scen_two_disposers, "race_with_first_stage": scen_race_with_first_stage, "dispose_before_first_stage": scen_dispose_before_first_stage,
        "on_loop_thread": scen_on_loop_thread, "loop_not_running": scen_loop_not_running}
 
 REPLAY_TEMPLATE = '''#!/venv/bin/python
